@@ -97,7 +97,7 @@ static __attribute__((noinline)) void do_case(unsigned i) {
 extern "C" void harness_c03() {
   unsigned sel = v_nondet_u32();
   v_assume(sel < NCASES);
-  dispatch<Case, NCASES>(sel);
+  dispatch<CaseW, NCASES>(sel);
 }
 
 // ---- vertex positions follow the same rule (GeometryKernel) -------------------------------------------------------------
@@ -147,7 +147,7 @@ static void do_geo_case(unsigned i) {
   for (int k = 0; k < newV; ++k) { const Vec3i_ &p = m.vertex(VH(ref.nV + k)); v_assert(p[0] == 0 && p[1] == 0 && p[2] == 0, "C03 new vertex starts at the default position"); }
   v_witness("C03 geo case end");
 }
-template <unsigned I> void GCase<I>::run() { do_geo_case(I); }
+template <unsigned I> void GCase<I>::run() { do_geo_case(I); v_witness("case returned"); }
 extern "C" void harness_c03_geom() {
   unsigned sel = v_nondet_u32();
   v_assume(sel < NCASES);
